@@ -559,3 +559,54 @@ func VerifC04Unicity() {
 	vrtAssert("one-entry-per-key#"+attr, count == len(last))
 	vrtAssert("last-value-of-every-key#"+attr, vrtDeepEqual(got, last))
 }
+
+// VerifC04Ipam: ipam configs are keyed by subnet: the later file refines the config of the same subnet, base configs it
+// does not mention are preserved, new subnets are appended.
+func VerifC04Ipam() {
+	subs := []string{"10.0.0.0/24", "10.0.1.0/24", "10.0.2.0/24"}
+	nb := 1 + vrtChoice("baseConfigs", 3)
+	var base []any
+	for k := 0; k < nb; k++ {
+		base = append(base, map[string]any{"subnet": subs[k], "ip_range": "r" + string(rune('0'+k))})
+	}
+	var over []any
+	want := map[string]string{}
+	for k := 0; k < nb; k++ {
+		want[subs[k]] = ""
+	}
+	no := 1 + vrtChoice("overrideConfigs", 2)
+	for k := 0; k < no; k++ {
+		sub := subs[vrtChoice("overrideSubnet", 3)]
+		gw := "g" + string(rune('0'+k))
+		over = append(over, map[string]any{"subnet": sub, "gateway": gw})
+		want[sub] = gw
+	}
+	mk := func(cfg []any) map[string]any {
+		return map[string]any{"services": map[string]any{"s": map[string]any{"image": "i"}},
+			"networks": map[string]any{"n": map[string]any{"ipam": map[string]any{"config": cfg}}}}
+	}
+	m, err := tcLoad(nil, nil, mk(base), mk(over))
+	vrtObserve("err", err != nil)
+	vrtAssert("loads", err == nil)
+	if err != nil {
+		return
+	}
+	nw, _ := m["networks"].(map[string]any)["n"].(map[string]any)
+	ip, _ := nw["ipam"].(map[string]any)
+	l, _ := ip["config"].([]any)
+	got := map[string]string{}
+	for _, e := range l {
+		mm, _ := e.(map[string]any)
+		s, _ := mm["subnet"].(string)
+		g, _ := mm["gateway"].(string)
+		got[s] = g
+		// a base config keeps its own attributes
+		for k := 0; k < nb; k++ {
+			if s == subs[k] {
+				vrtAssert("base-config-attributes-kept", mm["ip_range"] == any("r"+string(rune('0'+k))))
+			}
+		}
+	}
+	vrtObserve("got", got)
+	vrtAssert("one-config-per-subnet-base-kept-override-merged", vrtDeepEqual(got, want) && len(l) == len(want))
+}
